@@ -426,7 +426,7 @@ class LemmaChain:
         for L1 in list(unpaired):
             g1 = d.args[L1][1]
             found = False
-            for Lb in only_i:
+            for Lb in only_i + getattr(self, 'aux_logs', []):
                 if Lb == L1:
                     continue
                 gb = d.args[Lb][1]
@@ -461,14 +461,22 @@ class LemmaChain:
                             self.fact(d.eq(d.add(L1, o1), d.add(L2, o2)))
         return unpaired
 
-    def equal(self, I, O, signature, what):
-        """the whole chain; returns a Goal for the Explorer (final linear step)"""
+    def equal(self, I, O, signature, what, impl_end=None):
+        """the whole chain; returns a Goal for the Explorer (final linear step).
+        impl_end: number of DAG nodes when the implementation had finished (before the oracle ran); log applications
+        the implementation built but multiplied by a zero count are still available as auxiliary atoms."""
         d = self.d
         t = self.t
         goal = d.eq(I, O)
-        self.sqrt_phase([goal])
-        self.exp_phase([goal])
         cone = set(d.topo([goal]))  # sub-expressions the result actually depends on
+        self.aux_logs = []
+        if impl_end is not None:
+            self.aux_logs = [n for n in range(impl_end) if d.ops[n] == 'uf' and d.args[n][0] == 'log' and n not in cone
+                             and d.ops[d.args[n][1]] != 'var' and d.vals[d.args[n][1]] > 0]
+        aux_cone = set(d.topo(self.aux_logs))
+        self.sqrt_phase([goal] + self.aux_logs)
+        self.exp_phase([goal] + self.aux_logs)
+        self.sign_phase([b for b in t.denominators if b in aux_cone and b not in cone], 'auxiliary denominator')
         self.defined = self.sign_phase([b for b in t.denominators if b in cone])
         # log arguments that implementation and oracle share (up to a proved equality) first
         oside = set(d.topo([O]))
@@ -784,6 +792,7 @@ def make_body(c, tr, verbose=False):
             if isinstance(e, EngineError):
                 raise
             return [Goal(f'{what} (the real code raised {type(e).__name__}: {str(e)[:100]})', d.FALSE, signature=sig)]
+        impl_end = len(d.ops)
         x0, xs, tips = oracle_args(c, lambda k: mkfloat(V[k]))
         orc = stadler_oracle(mkfloat(V['lam']), mkfloat(V['mu']), mkfloat(V['psi']), mkfloat(V['rho']), x0, xs, tips,
                              c['survival'], mkfloat(V['r']) if c['removal'] else None, M=_SymMath())
@@ -801,11 +810,11 @@ def make_body(c, tr, verbose=False):
             return [Goal(f'{what}: the real code returns {d.vals[I]} (log arguments proved identically zero on this region: '
                          f'{[d.to_str(x, 3) for x in zero][:2]})', d.FALSE, signature=SIG_NAN)]
         chain = LemmaChain(t, dom(d, V) + list(t.pcs), tr, cfg_label(c), timeout=c.get('lemma_timeout', 30.0), verbose=verbose)
-        g = chain.equal(I, O, sig, what)
+        g = chain.equal(I, O, sig, what, impl_end)
         open_lemmas = [w for w, st in chain.failed if st == 'unknown']
         if open_lemmas:  # one retry with a long timeout (machine load)
             chain = LemmaChain(t, dom(d, V) + list(t.pcs), tr, cfg_label(c), timeout=90.0, verbose=verbose)
-            g = chain.equal(I, O, sig, what)
+            g = chain.equal(I, O, sig, what, impl_end)
             open_lemmas = [w for w, st in chain.failed if st == 'unknown']
         if open_lemmas:
             g.label += f' [lemmas the portfolio left open: {open_lemmas[:3]}]'
@@ -1059,20 +1068,22 @@ def tasks_for(tier):
         ts.append(('density', D(rho_shape='short')))
         for surv in (False, True):
             for rem in (False, True):
-                for org in ('given', 'root_edge', 'none'):
-                    for r0 in (False, True):
-                        ts.append(('density', D(n=3, survival=surv, removal=rem, origin=org, split={'rho0': r0})))
-                ts.append(('density', D(n=3, survival=surv, removal=rem, times='abs', rho_shape='short', split={'rho0': False})))
+                for r0 in (False, True):
+                    ts.append(('density', D(n=3, survival=surv, removal=rem, split={'rho0': r0})))
+        for org in ('root_edge', 'none'):
+            for r0 in (False, True):
+                ts.append(('density', D(n=3, removal=True, origin=org, split={'rho0': r0})))
+        ts.append(('density', D(n=3, times='abs', rho_shape='short', split={'rho0': False})))
         ts.append(('density', D(n=3, removal=True, split={'corner': True})))
         ts.append(('density', D(cls='BD', n=3)))
         for cell in CELLS_N2_TIP0:
-            for r0 in (False, True):
-                ts.append(('density', D(m=2, times='abs', cell=cell, split={'rho0': r0})))
-        for cell in CELLS_N2:
+            ts.append(('density', D(m=2, times='abs', cell=cell, split={'rho0': False})))
+        for cell in QUICK_CELLS:
             ts.append(('density', D(m=2, times='abs', cell=cell, split={'rho0': True})))
+        for cell in QUICK_CELLS[:3]:
             ts.append(('density', D(m=2, times='abs', cell=cell, origin='root_edge', survival=False, split={'rho0': False})))
         ts.append(('cover', dict(n=2, cells=CELLS_N2 + CELLS_N2_TIP0, tips='any')))
-        for cell in CELLS_N3:
+        for cell in CELLS_N3[:6]:
             ts.append(('density', D(m=2, n=3, times='abs', cell=cell, split={'rho0': False})))
     else:
         ts.append(('cover', dict(n=2, cells=QUICK_CELLS, tips='positive', half=True, strict=True)))
@@ -1088,8 +1099,9 @@ def run_cover_task(spec, tr):
         d = t.dag
         V = {nm: d.var(nm, v) for nm, v in initial_witness(c).items()}
         dom = domain_for(c)(d, V)
+        dom.append(d.lt(0, V['rho']))
         if spec['tips'] == 'positive':
-            dom += [d.lt(0, V[f's{i}']) for i in range(spec['n'])] + [d.lt(0, V['rho'])]
+            dom += [d.lt(0, V[f's{i}']) for i in range(spec['n'])]
         if spec.get('half'):
             dom.append(d.le(V['s0'], V['s1']))
         if spec.get('strict'):  # quick tier: the boundary lies above the lower tip (thorough covers the rest)
